@@ -31,7 +31,6 @@ THEOREMS = ["OdxVerif.Codec." + t for t in ['C01_roundtrip_struct', 'C01_roundtr
            ["OdxVerif.Text." + t for t in ['utf8_decode_encode', 'utf8_encode_decode', 'f32to64_f64to32', 'f64to32_f32to64',
                                            'utf16_decode_encode', 'utf16_encode_decode']] + \
            ["OdxVerif.Bits." + t for t in ['bcd_roundtrip', 'bcdEnc_digit']] + \
-           # compu methods inside the codec model (Props/C01Compu.lean)
            ["OdxVerif.Codec." + t for t in ['C01_roundtrip_linear_leaf', 'C01_linear_leaf_encode', 'C01_linear_leaf_decode',
                                             'C01_compu_leaf_strict_encode', 'C01_compu_leaf_strict_decode']]
 RULE = ("well-formed descriptions (envelope wf of DESIGN §6/C01, by construction in harness/odxgen/gen.py) x canonical values "
